@@ -233,8 +233,8 @@ def run(ctx: Ctx) -> int:
     # machinery cross-check: the generator's acceptable set and the trace verdict must agree
     for row in rows:
         recs, acc = accept[row["id"]]
-        if row["s"]["out"] != "record":
-            continue
+        if row["s"]["out"] != "record" or row["s"]["n"] == 0:
+            continue      # no query observed: the trace verdict is "no_srv_query_made", nothing to cross-check
         res = row["s"]["res"]
         names = [t_.rstrip(".") for (_, _, _, t_) in recs]
         tgt = _txt(res["target"])
